@@ -597,4 +597,105 @@ theorem RelF.bind {m s rs env} (h : RelF m s rs env) (id : Nat) (hid : id < rs.f
       · exact ValIn.mono (h.vok id y w hy hw) hgood
     · exact ValIn.mono (h.vok i y w hy hw) hgood
 
+/-! ## Helper functions of operand evaluation; coming back to a caller -/
+
+theorem chain_trims {isFn : Nat → Bool} {frames : List Ref.Frame} :
+    ∀ {b env lin}, ChainF isFn frames b env lin → Scope.trims isFn lin = b := by
+  intro b env lin h
+  induction h with
+  | root fr hf hp hfl0 =>
+    have e : Scope.isFnElem isFn (some 0) = false := hfl0
+    simp only [Scope.trims, e, Bool.false_eq_true, if_false]
+  | cons b env p fr rest hf hp hlt hfl0 _ ih =>
+    have e : Scope.isFnElem isFn (some env) = false := hfl0
+    simp only [Scope.trims, e, Bool.false_eq_true, if_false, ih]
+  | fn env fr below hf hp hpos hfl0 hne =>
+    have e : Scope.isFnElem isFn (some env) = true := hfl0
+    simp only [Scope.trims, e, if_true]
+    cases below with
+    | nil => exact absurd rfl hne
+    | cons _ _ => rfl
+
+theorem chain_ttb_top {isFn : Nat → Bool} {frames : List Ref.Frame} :
+    ∀ {b env lin}, ChainF isFn frames b env lin → b = false → Scope.takeToBoundary isFn lin = lin := by
+  intro b env lin h
+  induction h with
+  | root fr hf hp hfl0 =>
+    intro _
+    have e : Scope.isFnElem isFn (some 0) = false := hfl0
+    simp only [Scope.takeToBoundary, e, Bool.false_eq_true, if_false]
+  | cons b env p fr rest hf hp hlt hfl0 _ ih =>
+    intro hb
+    have e : Scope.isFnElem isFn (some env) = false := hfl0
+    simp only [Scope.takeToBoundary, e, Bool.false_eq_true, if_false, ih hb]
+  | fn env fr below hf hp hpos hfl0 hne => intro hb; cases hb
+
+/-- what a new closure or helper function captures is the top segment of the live stack -/
+theorem closingNow_topSeg {s : St} {frames : List Ref.Frame} {b env}
+    (h : ChainF (isFnScope s) frames b env s.linear) : closingNow s = topSeg s := by
+  unfold closingNow topSeg
+  rw [Scope.newClosing_eq, chain_trims h]
+  cases b with
+  | true => rfl
+  | false => simp only [Bool.false_eq_true, if_false]; exact (chain_ttb_top h rfl).symm
+
+/-- inside the helper function of an operand the scopes are the same -/
+theorem relF_inHelper {m : Nat → Nat} {s : St} {rs : Ref.St} {env : Nat} (h : RelF m s rs env) (code : List Instr) :
+    RelF m (inHelper s code) rs env := by
+  obtain ⟨b, hc, hfc⟩ := h.ctx
+  have hgood : ∀ k, GoodFn m s rs k → GoodFn m (inHelper s code) rs k := fun k hg =>
+    hg.mono (by show s.fns.length ≤ (s.fns ++ [_]).length; simp) (fun id hid => fnOf_inHelper_old s code id hid)
+      (ClosExt.refl rs) rfl
+  have hold : FnChainF (inHelper s code) b s.curfunc :=
+    hfc.transfer (s := s) (s' := inHelper s code) (show topSeg (inHelper s code) = topSeg s from rfl)
+      (by show s.fns.length ≤ (s.fns ++ [_]).length; simp)
+      (fun id hid => fnOf_inHelper_old s code id hid)
+  refine ⟨h.len, h.vars, h.root0, ⟨b, hc, ?_⟩, ?_, h.heap, h.trace, h.globals,
+    fun i x v hx hv => ValIn.mono (h.vok i x v hx hv) hgood, HeapIn.mono h.hok hgood⟩
+  · refine FnChainF.step b _ s.curfunc (by show s.fns.length < (s.fns ++ [_]).length; simp) ?_ hfc.lt ?_ hold
+    · rw [fnOf_inHelper_self]; rfl
+    · rw [fnOf_inHelper_self]
+      exact ⟨[], by show topSeg s = [] ++ closingNow s; rw [closingNow_topSeg hc]; rfl⟩
+  · intro i hi
+    obtain ⟨t, h1, h2⟩ := h.fscopes i hi
+    have ht : t < s.fns.length := by
+      rcases Nat.lt_or_ge t s.fns.length with ht | ht
+      · exact ht
+      · have : fnOf s t = {} := by simp [fnOf, List.getD_eq_getElem?_getD, List.getElem?_eq_none ht]
+        rw [this] at h2; cases h2
+    exact ⟨t, h1, by rw [fnOf_inHelper_old s code t ht]; exact h2⟩
+
+/-- **Back in the caller.** `s` is related (before a nested run or a call); `s₄` is related after it,
+in whatever environment and function it ended; `s₅` is `s₄` with the caller's live stack and current
+function again. Old scopes kept their flags, old functions are unchanged, old frames their parents:
+then `s₅` is related in the caller's environment. -/
+theorem RelF.back {m m₄ : Nat → Nat} {s s₄ s₅ : St} {rs rs₄ : Ref.St} {env env₄ : Nat}
+    (hrel : RelF m s rs env) (rel4 : RelF m₄ s₄ rs₄ env₄)
+    (hsc : s₅.scopes = s₄.scopes) (hfns : s₅.fns = s₄.fns) (hheap : s₅.heap = s₄.heap) (htr : s₅.trace = s₄.trace)
+    (hlin : s₅.linear = s.linear) (hcur : s₅.curfunc = s.curfunc)
+    (hflags : ∀ i, i < s.scopes.length → isFnScope s₄ i = isFnScope s i)
+    (hfl : s.fns.length ≤ s₄.fns.length) (hfo : ∀ id, id < s.fns.length → fnOf s₄ id = fnOf s id)
+    (hext : FramesExt rs rs₄) : RelF m₄ s₅ rs₄ env := by
+  have hso : ∀ i, scopeOf s₅ i = scopeOf s₄ i := fun i => by unfold scopeOf; rw [hsc]
+  have hfo5 : ∀ i, fnOf s₅ i = fnOf s₄ i := fun i => by unfold fnOf; rw [hfns]
+  have hfl5 : isFnScope s₅ = isFnScope s₄ := by funext i; unfold isFnScope; rw [hso]
+  have hgood : ∀ id, GoodFn m₄ s₄ rs₄ id → GoodFn m₄ s₅ rs₄ id := fun id hg =>
+    hg.mono (by rw [hfns]; exact Nat.le_refl _) (fun i _ => hfo5 i) (ClosExt.refl _) rfl
+  obtain ⟨b, hc, hfc⟩ := hrel.ctx
+  obtain ⟨fr0, hf0, hp0, hfl0⟩ := rel4.root0
+  have hflr : ∀ i, i < rs.frames.length → isFnScope s₅ i = isFnScope s i := fun i hi => by
+    rw [hfl5]; exact hflags i (by rw [hrel.len]; exact hi)
+  have hc5 : ChainF (isFnScope s₅) rs₄.frames b env s.linear := hc.congr hflr hext
+  have hts : topSeg s₅ = topSeg s := by
+    show Scope.takeToBoundary (isFnScope s₅) s₅.linear = Scope.takeToBoundary (isFnScope s) s.linear
+    rw [hlin]; exact takeToBoundary_chain hflr hc
+  refine ⟨by rw [hsc]; exact rel4.len, fun i x => by rw [hso]; exact rel4.vars i x,
+    ⟨fr0, hf0, hp0, by rw [hfl5]; exact hfl0⟩, ⟨b, by rw [hlin]; exact hc5, ?_⟩,
+    fun i hi => by rw [hfl5] at hi; obtain ⟨t, h1, h2⟩ := rel4.fscopes i hi; exact ⟨t, by rw [hso]; exact h1, by rw [hfo5]; exact h2⟩,
+    by rw [hheap]; exact rel4.heap, by rw [htr]; exact rel4.trace, rel4.globals,
+    fun i x v hx hv => ValIn.mono (rel4.vok i x v hx (by rw [← hso]; exact hv)) hgood,
+    by rw [hheap]; exact HeapIn.mono rel4.hok hgood⟩
+  rw [hcur]
+  exact hfc.transfer hts (by rw [hfns]; exact hfl) (fun id hid => by rw [hfo5]; exact hfo id hid)
+
 end ZygoVerif.Sim
